@@ -4,6 +4,7 @@ import (
 	"bytes"
 	"fmt"
 	"io"
+	"sync/atomic"
 	"testing"
 	"time"
 
@@ -648,11 +649,17 @@ func TestC06(t *testing.T) {
 			stream = append(stream, w...)
 		}
 		done := make(chan int)
+		var framesSeen int64
+		perr := map[string]int{}
 		go func() {
 			frames := 0
 			for evt := range node.Events() {
+				if pe, ok := evt.(*gomavlib.EventParseError); ok {
+					perr[pe.Error.Error()]++
+				}
 				if ef, ok := evt.(*gomavlib.EventFrame); ok {
 					frames++
+					atomic.AddInt64(&framesSeen, 1)
 					if !sigJustified(stream, ef.Frame, keyRaw, genv) {
 						rep.Violation("what=accepted:node", "a node with an incoming key delivered an unauthenticated frame as a frame event",
 							map[string]interface{}{"delivered": descFrame(ef.Frame)})
@@ -672,6 +679,22 @@ func TestC06(t *testing.T) {
 		if !tr.WaitDrained(3 * time.Second) {
 			rep.Inconclusive("node did not drain its input before the no-progress criterion fired")
 		}
+		// the transport is drained; the events of the last frames may still be on their way to this (slow: every delivered
+		// frame is checked against the stream) consumer: the node is closed once they have all arrived, or nothing has arrived
+		// for a while (no-progress criterion, not a fixed pause)
+		lastN, lastChange := int64(-1), time.Now()
+		for hard := time.Now().Add(20 * time.Second); time.Now().Before(hard); {
+			n := atomic.LoadInt64(&framesSeen)
+			if n >= int64(wantAuth) {
+				break
+			}
+			if n != lastN {
+				lastN, lastChange = n, time.Now()
+			} else if time.Since(lastChange) > time.Second {
+				break
+			}
+			time.Sleep(time.Millisecond)
+		}
 		time.Sleep(20 * time.Millisecond)
 		node.Close()
 		frames := <-done
@@ -679,7 +702,7 @@ func TestC06(t *testing.T) {
 		rep.Count("node_inkey_input_frames", nIn)
 		rep.Count("node_inkey_frame_events", frames)
 		if frames < wantAuth {
-			rep.Violation("what=rejected-valid", fmt.Sprintf("node with InKey delivered %d frame events for %d authenticated frames", frames, wantAuth), nil)
+			rep.Violation("what=rejected-valid", fmt.Sprintf("node with InKey delivered %d frame events for %d authenticated frames", frames, wantAuth), map[string]interface{}{"parse_errors_by_text": perr})
 		}
 	}
 	rep.Floor("tamper_streams", 2000)
